@@ -16,6 +16,11 @@ CLASS_HOME = {
     'FiniteDifference': 'openmdao/approximation_schemes/finite_difference.py',
     '_SubHelper': 'openmdao/utils/file_wrap.py',
     'DOEDriver': 'openmdao/drivers/doe_driver.py',
+    'Subjac': 'openmdao/jacobians/subjac.py',
+    'DenseSubjac': 'openmdao/jacobians/subjac.py',
+    'OMCOOSubjac': 'openmdao/jacobians/subjac.py',
+    'DiagonalSubjac': 'openmdao/jacobians/subjac.py',
+    'DefaultTransfer': 'openmdao/vectors/default_transfer.py',
     'ComplexStep': 'openmdao/approximation_schemes/complex_step.py',
     'OptionsDictionary': 'openmdao/utils/options_dictionary.py',
     'Autoscaler': 'openmdao/drivers/autoscalers/autoscaler.py',
@@ -41,6 +46,7 @@ PROPERTY_MODULES = {
     'C29': ['contracts.c29_filewrap'],
     'C05': ['contracts.c05_indexer'],
     'C23': ['contracts.c23_doe'],
+    'C02': ['contracts.c02_adjoint'],
 }
 
 # modules whose contracts may be used as callee contracts by any property
@@ -70,6 +76,7 @@ PROPERTY_ASSUMPTIONS = {
             'assumed: _iter_get_norm returns NaN or a value >= 0; _single_iteration and _run_apply neither raise nor modify solver control state'],
 }
 GAPS = {
+    'C02': ['Group._apply_linear / System recursion and scaling contexts', 'linear solvers (LAPACK/SuperLU/Krylov) in fwd vs rev', 'scipy-format sub-jacobians (COO/CSR/CSCSubjac use scipy @ and .T: assumed)', 'assembled matrices _prod (C11)', 'DictionaryJacobian._apply for implicit components, compute_jacvec_product, matrix-free components', 'Problem-level <w, J v> = <J^T w, v>'],
     'C23': ['all generator classes (value maps, designs, strata, reproducibility): bounded exhaustive tier only', 'drivers/sampling/* counterparts', 'Driver._set_design_var (assumed)', 'parallel DOE (MPI)'],
     'C05': ['Indexer class hierarchy (shaped_instance / as_array / indexed_src_shape / _check_bounds): bounded exhaustive tier against NumPy only', 'index chains through promotes (C04)', 'known finding F5a (recorded, not repaired)'],
     'C29': ['write->read round trip through re/pyparsing: bounded exhaustive tier only', 'transfer_2Darray, transfer_keyvar, anchors with occurrence != 1', 'string values containing delimiters'],
@@ -291,3 +298,12 @@ def _c23_extra(tier, seed, native_run):
 
 
 EXTRA_TIERS['C23'] = _c23_extra
+
+
+def _c02_extra(tier, seed, native_run):
+    out = run_lean(['adjoint_exchange', 'adjoint_exchange_masked', 'coo_adjoint', 'coo_adjoint_ind', 'transfer_adjoint', 'diag_adjoint'])
+    out['violations'] = []
+    return out
+
+
+EXTRA_TIERS['C02'] = _c02_extra
